@@ -799,6 +799,10 @@ fn models(thorough: bool) -> Vec<PipeModel> {
 pub(crate) fn run(replay: Option<&str>) -> Report {
     let mut rep = Report::new("C01", "hd-c01");
     if let Some(case) = replay {
+        if super::c01s::replay(&mut rep, case) {
+            rep.evaluations = 1;
+            return rep;
+        }
         let Some((name, hist)) = bfs::decode_case(case) else {
             rep.machinery_error = Some("bad replay case".into());
             return rep;
@@ -818,6 +822,10 @@ pub(crate) fn run(replay: Option<&str>) -> Report {
     rep.rule = format!("explicit-state BFS depth {depth} over announce/withdraw/peer-down/next-hop-flap/soft-reset-out/ROUTE-REFRESH events from 2 peers + local, with an explicit `sync` op that lets the LIVE observing session (real PeerSession::run over loopback) deliver and flush what has queued up; at every sync the neighbour's mirror Adj-RIB-In (decoded from the bytes received) must equal the mirror of a brand-new identical session on the same daemon and contain only prefixes the RIB still has; configurations: observer role, add-path send-max, shard count, op pack (destination-id re-use / multi-source); non-trivial = distinct canonical (RIB, mirror, pending) state");
     rep.notes.push("assume: the UPDATE bytes are decoded with the repository's own parser under the neighbour's negotiated codec (C04 checks that codec independently)".into());
     rep.notes.push("assume: an export-policy change is followed by soft_reset_out or ROUTE-REFRESH before the views are compared (the operator procedure); TCP partial writes inside one flush are not varied".into());
+    super::c01s::run_into(&mut rep, thorough);
+    if rep.machinery_error.is_some() {
+        return rep;
+    }
     for m in models(thorough) {
         // the multi-source pack has ~20 ops: one level less in the quick tier
         // (thorough: 7 / 5 - the state now contains the queued change events, which costs a
